@@ -36,6 +36,8 @@ class VLoop(asyncio.base_events.BaseEventLoop):
     def _on_exc(self, loop, context):
         msg = context.get('message')
         exc = context.get('exception')
+        if getattr(exc, '_vf_on_ticket', False):
+            return      # already recorded on the request's ticket
         self.exceptions.append('%s: %r' % (msg, exc))
 
     def time(self):
@@ -47,6 +49,33 @@ class VLoop(asyncio.base_events.BaseEventLoop):
 
     def _process_events(self, event_list):
         pass
+
+    # ---- "file descriptors": there is no real I/O, but libraries that sit
+    # on add_reader()/add_writer() (tornado's IOStream) can register for an
+    # in-memory stream's pseudo-descriptor; the stream calls fd_ready() when
+    # it has something to read, writers are always ready
+    def add_reader(self, fd, callback, *args):
+        self.__dict__.setdefault('_vreaders', {})[fd] = (callback, args)
+
+    def remove_reader(self, fd):
+        return self.__dict__.setdefault('_vreaders', {}).pop(
+            fd, None) is not None
+
+    def add_writer(self, fd, callback, *args):
+        self.__dict__.setdefault('_vwriters', {})[fd] = (callback, args)
+        self.call_soon(self._fd_fire, '_vwriters', fd)
+
+    def remove_writer(self, fd):
+        return self.__dict__.setdefault('_vwriters', {}).pop(
+            fd, None) is not None
+
+    def _fd_fire(self, table, fd):
+        h = self.__dict__.get(table, {}).get(fd)
+        if h is not None:
+            h[0](*h[1])
+
+    def fd_ready(self, fd):
+        self.call_soon(self._fd_fire, '_vreaders', fd)
 
     def _write_to_self(self):
         pass
